@@ -169,6 +169,55 @@ theorem findVI_mem {vis : List ValueInfoP} {n : String} {vi : ValueInfoP} (h : f
   have := findLast?_mem h
   exact ⟨this.1, by simpa using this.2⟩
 
+theorem findLast?_none_of_forall {α : Type} {p : α → Bool} {l : List α} (h : ∀ a ∈ l, p a = false) :
+    findLast? p l = none := by
+  induction l with
+  | nil => rfl
+  | cons x xs ih =>
+    simp only [findLast?, ih (fun a ha => h a (List.mem_cons_of_mem _ ha)), h x (by simp)]
+    rfl
+
+theorem findVI_none_iff {l : List ValueInfoP} {n : String} : findVI l n = none ↔ n ∉ l.map (·.name) := by
+  constructor
+  · intro h hm
+    obtain ⟨v, hv, hn⟩ := List.mem_map.1 hm
+    induction l with
+    | nil => cases hv
+    | cons x xs ih =>
+      simp only [findVI, findLast?] at h
+      cases hx : findLast? (fun v => v.name = n) xs with
+      | some y => rw [hx] at h; cases h
+      | none =>
+        rw [hx] at h
+        simp only at h
+        rcases List.mem_cons.1 hv with rfl | hv
+        · simp [hn] at h
+        · exact ih hx (by rw [← hn]; exact List.mem_map_of_mem hv) hv
+  · intro h
+    apply findLast?_none_of_forall
+    intro v hv
+    simp only [decide_eq_false_iff_not]
+    intro e
+    exact h (by rw [← e]; exact List.mem_map_of_mem hv)
+
+theorem findVI_of_mem {l : List ValueInfoP} (h : (l.map (·.name)).Nodup) {v : ValueInfoP} (hv : v ∈ l) :
+    findVI l v.name = some v := by
+  cases hf : findVI l v.name with
+  | none => exact absurd (List.mem_map_of_mem hv) (findVI_none_iff.1 hf)
+  | some w =>
+    obtain ⟨hw, hn⟩ := findVI_mem hf
+    congr 1
+    clear hf
+    induction l with
+    | nil => cases hv
+    | cons x xs ih =>
+      simp only [List.map_cons, List.nodup_cons] at h
+      rcases List.mem_cons.1 hv with e1 | hv' <;> rcases List.mem_cons.1 hw with e2 | hw'
+      · rw [e1, e2]
+      · exact absurd (by rw [← e1, ← hn]; exact List.mem_map_of_mem hw') h.1
+      · exact absurd (by rw [← e2, hn]; exact List.mem_map_of_mem hv') h.1
+      · exact ih h.2 hv' hw'
+
 theorem newValue_eq (vis : List ValueInfoP) (q : List AnnotP) (n : String)
     (h : vis.all wfVI = true) : newValue vis q n = .ok (newValueT vis q n) := by
   unfold newValue newValueT
